@@ -315,3 +315,106 @@ def rule_freshcursor(P) -> RuleResult:
         else:
             res.ok({'Connection.execute': show(v)})
     return res
+
+
+
+# ----------------------------------------------------------------------
+# R-COLUMN7: a description entry is the 7-sequence of the DB-API fields
+
+FIELDS = ['name', 'type_code', 'display_size', 'internal_size', 'precision', 'scale', 'null_ok']
+
+
+def rule_column7(P) -> RuleResult:
+    from ..symex import Exec
+    res = RuleResult('R-COLUMN7')
+    res.exhaustive = True
+    col = P.cls(CU, 'Column')
+    COL = Sym('COLUMN')
+    v = col.attrs.get('_vars')
+    if v is None:
+        raise AnalysisError('anchor vanished: Column._vars')
+    eng0 = Engine(P)
+    ex = Exec(eng0, [])
+    vars_t = ex.ev(v, {'__fi__': next(iter(col.methods.values()))})
+    items = ex.iterate(vars_t)
+    names = []
+    for it in items or []:
+        if isinstance(it, T) and it.op == 'call' and str(it.args[0]).split('.')[-1] == 'attrgetter' and len(it.args[1]) == 1 and isinstance(it.args[1][0], str):
+            names.append(it.args[1][0])
+    if items is None or len(names) != len(items):
+        raise AnalysisError(f'Column._vars: not a sequence of attrgetter(<field>): {ast.unparse(v)[:80]}')
+    if names != FIELDS:
+        res.fail(col.fq, 'column7:fields', f'a description entry is the 7-sequence {FIELDS}; found {names}', loc(col))
+    else:
+        res.ok({'fields': names})
+    VARS = T('tuple', tuple(items))
+
+    def on_attr(base, attr, e):
+        if base == COL and attr == '_vars':
+            return VARS
+        return NotImplemented
+    ln = col.methods.get('__len__')
+    if ln is None:
+        res.fail(f'{col.fq}.__len__', 'column7:len', 'description entries have no len()', loc(col))
+    else:
+        for p in Engine(P, on_attr=on_attr).paths(ln, {'self': COL}):
+            if p.value != len(FIELDS):
+                res.fail(f'{col.fq}.__len__', 'column7:len', f'len() of a description entry must be {len(FIELDS)}; it is `{show(p.value)}`', loc(ln))
+            else:
+                res.ok({'len': len(FIELDS)})
+    for i, nm in enumerate(names):
+        f = col.methods.get(nm)
+        if f is None or not any(ast.unparse(d) == 'property' for d in f.node.decorator_list):
+            res.fail(f'{col.fq}.{nm}', 'column7:property', f'field {nm} is not a property of Column', loc(col))
+            continue
+        vals = {repr(p.value): p.value for p in Engine(P).paths(f, {'self': COL}) if p.outcome == 'return' or p.outcome == 'fallthrough'}
+        if i >= 2:
+            if list(vals.values()) != [None]:
+                res.fail(f.fq, 'column7:none', f'{nm} must be None; it is {list(vals)}', loc(f))
+            else:
+                res.ok({'field': nm, 'value': None})
+        elif i == 0:
+            if list(vals.values()) != [T('attr', (COL, '_name'))]:
+                res.fail(f.fq, 'column7:name', f'field 0 must be the column name; it is {list(vals)}', loc(f))
+            else:
+                res.ok({'field': nm})
+        else:
+            res.ok({'field': nm})
+    gi = col.methods.get('__getitem__')
+    if gi is None:
+        res.fail(f'{col.fq}.__getitem__', 'column7:slice', 'description entries must support indexing and slicing', loc(col))
+    else:
+        problems = []
+        KEY = Sym('SLICE_KEY')
+        for key, is_slice in ((0, False), (3, False), (6, False), (-1, False), (KEY, True)):
+            def on_isinstance(vv, c, e, _s=is_slice):
+                if str(c).endswith("('slice',))") or 'slice' in show(c):
+                    return _s
+                return NotImplemented
+            for p in Engine(P, on_attr=on_attr, on_isinstance=on_isinstance).paths(gi, {'self': COL, gi.params[1]: key}):
+                if p.decisions:
+                    problems.append(f'for {"a slice" if is_slice else f"index {key}"} it branches on `{show(p.decisions[0][0])[:60]}`')
+                    continue
+                if not is_slice:
+                    want = T('call', (show(VARS.args[key]), (COL,), ()))
+                    if p.outcome != 'return' or p.value != want:
+                        problems.append(f'for index {key} it gives `{show(p.value)[:80]}`, not field {FIELDS[key]}')
+                else:
+                    sel = T('item', (VARS, KEY))
+                    v_ = p.value
+                    while isinstance(v_, T) and v_.op == 'call' and v_.args[0] == 'tuple' and len(v_.args[1]) == 1:
+                        v_ = v_.args[1][0]
+                    good = isinstance(v_, SList) and v_.origin is not None and v_.origin[0] == sel and not v_.origin[2] and \
+                        v_.origin[1] == T('call', (show(T('elem', (sel,))), (COL,), ()))
+                    if p.outcome != 'return' or not good:
+                        problems.append(f'for a slice it gives `{show(p.value)[:100]}`, not the tuple of the fields selected by slicing the '
+                                        f'7 getters with that very slice')
+        if problems:
+            res.fail(gi.fq, 'column7:getitem', 'Column.__getitem__ must return the field for an index and the tuple of fields for a slice: '
+                     + '; '.join(problems[:3]), loc(gi))
+        else:
+            res.ok({'getitem': 'index and slice', 'cases': 5})
+    bases = [ast.unparse(b) for b in col.node.bases]
+    if 'Sequence' not in bases:
+        res.fail(col.fq, 'column7:sequence', 'Column must be a Sequence (iteration, len, indexing)', loc(col))
+    return res
